@@ -12,6 +12,7 @@ Nothing here touches the user's cache or build/xdg-cache: everything lives under
 Run as `python -m harness.comp.cache --child <json>` this file is also the child of `sub`."""
 import hashlib
 import importlib
+import io
 import json
 import os
 import pathlib
@@ -20,6 +21,7 @@ import shutil
 import subprocess
 import sys
 import threading
+import unicodedata
 
 IMPORTS = "From LV Require Import Common.Cases Runtime.Cache Runtime.CacheExec."
 BITS = {0: "correspondence: the model of the start-up disagrees with what the start did",
@@ -91,14 +93,83 @@ def dvt_dir(p):
 
 
 # ----------------------------------------------------------------------------------------------
+# What the shipped data files say, read WITHOUT any lingpy code: the reference every object handed
+# out by a start is compared with (full converter dictionaries, full scoring matrices, inventories).
+def _src_text(path, lines=False):
+    with io.open(path, encoding="utf-8-sig") as fp:
+        if lines:
+            return [unicodedata.normalize("NFC", ln.strip("\r\n")) for ln in fp]
+        return unicodedata.normalize("NFC", fp.read())
+
+
+def source_objects(src, dirs):
+    """label -> canonical form of the object the data files define.
+    (0, m): {sound: class} of data/models/m/converter ('CLASS : sound, sound, ...', NFC; a class listed
+            twice keeps its last line); (1, m): the ScoreDict of data/models/m/matrix (tab separated, first
+            cell = character, '#' lines and empty lines skipped, cells stripped, floats);
+    (2, d): (diacritics without '-', vowels not among the diacritics, tones), newlines removed, NFC."""
+    root = os.path.join(src, "lingpy", "data", "models")
+    out = {}
+    for d, files in dirs:
+        p = os.path.join(root, d)
+        if "converter" in files:
+            classes = {}
+            for line in _src_text(os.path.join(p, "converter"), lines=True):
+                k, v = line.split(" : ")
+                classes[k] = v.split(", ")
+            out[(0, d)] = canon({s: k for k, sounds in classes.items() for s in sounds})
+        if "matrix" in files:
+            rows = [[c.strip() for c in ln.strip().split("\t")]
+                    for ln in _src_text(os.path.join(p, "matrix"), lines=True) if ln and not ln.startswith("#")]
+            out[(1, d)] = ["obj", "ScoreDict", canon({"chars2int": {r[0]: i for i, r in enumerate(rows)},
+                                                      "matrix": [[float(x) for x in r[1:]] for r in rows]})]
+        if all(f in files for f in ("diacritics", "vowels", "tones")):
+            rd = lambda f: _src_text(os.path.join(p, f)).replace("\n", "")   # noqa: E731
+            dia = rd("diacritics").replace("-", "")
+            out[(2, d)] = canon((dia, "".join(v for v in rd("vowels") if v not in dia), rd("tones")))
+    return out
+
+
+def canon_digest(c):
+    return hashlib.sha256(json.dumps(c, ensure_ascii=True).encode()).hexdigest()[:24]
+
+
+def describe_difference(a, b):
+    """a, b canonical forms; a short human-readable difference (first few differing dict keys)."""
+    try:
+        if a[0] == "dict" and b[0] == "dict":
+            da, db = {json.dumps(k): v for k, v in a[1]}, {json.dumps(k): v for k, v in b[1]}
+            ks = [k for k in sorted(set(da) | set(db)) if da.get(k, "<absent>") != db.get(k, "<absent>")]
+            return "; ".join("key %s: %s vs %s" % (k, json.dumps(da.get(k, "<absent>")), json.dumps(db.get(k, "<absent>")))
+                             for k in ks[:4]) + (" (+%d more)" % (len(ks) - 4) if len(ks) > 4 else "")
+    except Exception:
+        pass
+    return "%s... vs %s..." % (json.dumps(a)[:120], json.dumps(b)[:120])
+
+
+def wf_step_py(kind, arg, dirs):
+    """Mirror of Cache.wf_step: the calls the real code serves whatever the cache holds."""
+    D = dict(dirs)
+    if kind == "dvt":
+        return arg in ("", "el", "evolaemp") and all(f in D.get(dvt_dir(arg), []) for f in ("diacritics", "vowels", "tones"))
+    fs = D.get(arg, [])
+    return "converter" in fs and "INFO" in fs and ("matrix" in fs or ("scorer" not in fs and "scorer.bin" not in fs))
+
+
+# ----------------------------------------------------------------------------------------------
 class Lab:
     """Scratch directories, reference bytes and reference objects."""
 
-    def __init__(self, src, steps, tag=""):
+    def __init__(self, src, steps, tag="", dirs=()):
         from ..lib import env
         self.env = env
         self.src = src
         self.steps = steps                      # from the translator: [{"kind","arg","key","targets"}]
+        self.dirs = list(dirs)                  # from the translator: [(directory, [files])]
+        # every call that goes through the cache and that the code serves whatever the cache holds:
+        # load_dvt with each accepted spelling of its path, Model(d) for every well-formed directory
+        self.pool = [("dvt", a) for a in ("", "el", "evolaemp") if wf_step_py("dvt", a, self.dirs)] + \
+                    [("model", d) for d, _ in self.dirs if wf_step_py("model", d, self.dirs)]
         self.root = os.path.join(env.BUILD, "c20-%d%s" % (os.getpid(), tag))
         shutil.rmtree(self.root, ignore_errors=True)
         os.makedirs(self.root)
